@@ -112,6 +112,7 @@ Definition EWM := "__splink__edges_with_mapped_ids".
 Definition BRIDGES := "__splink__bridges".
 Definition GME := "__splink__graph_metrics_edges".
 Definition GMC := "__splink__graph_metrics_clusters".
+Definition NODESTF := "nodes_tf__".     (* (select distinct col, tf_col from __splink__df_concat_with_tf) as nodes_tf__i *)
 
 (* "select * from __splink__df_concat_with_tf" read under the name __splink__df_concat
    (enqueue_df_concat) has the rows and columns of __splink__df_concat: the left joins onto
@@ -133,7 +134,8 @@ Definition origin_eqb (a b : origin) : bool :=
 Record fixes := {
   fx77 : bool;    (* register_term_frequency_lookup evicts a Splink-computed concat_with_tf *)
   fx716 : bool;   (* estimate_u computes its blocked pairs with use_cache=False *)
-  fx715 : bool    (* realtime compare_records tracks the table created on the cached-SQL path (C18) *)
+  fx715 : bool;   (* realtime compare_records tracks the table created on the cached-SQL path (C18) *)
+  fx718 : bool    (* register_term_frequency_lookup(overwrite=True) over an existing lookup drops the derived tables *)
 }.
 
 Inductive event :=
@@ -337,8 +339,14 @@ Section Hash.
   | RBlockedInline (p : nat)            (* blocking CTE over the inline concat (blocking analysis) *)
   | RConcat                             (* vertically_concatenate.enqueue_df_concat *)
   | RTfOrInline (c : string)            (* term_frequencies.compute_all_term_frequencies_sqls *)
-  | RTfIfNamed (c : string)             (* find_matches_to_new_records / compare_two_records *)
-  | RCwtfIfNamed.                       (* compare_two_records *)
+  | RTfIfNamed (c : string)             (* the named tf table as an input frame, if cached *)
+  | RCwtfIfNamed                        (* the cached concat_with_tf as an input frame, if cached *)
+  | RLeafPlain (n : string)             (* an existing table, read by its name *)
+  | RCwtfHitOnly                        (* compare_two_records appends the cached concat_with_tf as an input frame; the
+                                           SQL reads it only through RTfRoute *)
+  | RTfRoute (c : string).              (* term_frequencies._join_new_table_to_df_concat_with_tf_sql: where the tf of a new
+                                           record comes from - the cached tf table, else select distinct from the cached
+                                           concat_with_tf, else NULL (EntryPoints.route_priority) *)
 
   Definition concat_tree (s : state) : sqlt := Cte CONCAT 0 (map Leaf (st_inputs s)).
 
@@ -394,6 +402,21 @@ Section Hash.
         | Some h => r_handle h CWTF
         | None => r_nil
         end
+    | RLeafPlain n => {| r_trees := [Leaf (LPlain n)]; r_events := []; r_aliases := [NEWREC]; r_inline := [] |}
+    | RCwtfHitOnly =>
+        match aget (st_cache s) (named CWTF) with
+        | Some h => {| r_trees := []; r_events := [Hit CWTF (pbase (h_phys h))]; r_aliases := alias_of h; r_inline := [] |}
+        | None => r_nil
+        end
+    | RTfRoute c =>
+        match aget (st_cache s) (named (tfname c)) with
+        | Some h => r_handle h (tfname c)
+        | None =>
+            match aget (st_cache s) (named CWTF) with
+            | Some h => {| r_trees := [Cte NODESTF 0 [h_src h]]; r_events := []; r_aliases := []; r_inline := [] |}
+            | None => r_nil
+            end
+        end
     end.
 
   Definition resolve_all (s : state) (regs : list handle) (ins : list iref) : resolved :=
@@ -408,12 +431,14 @@ Section Hash.
   | IFreshUid                                  (* an ascii_uid(8) drawn for names inside the SQL text *)
   | IDrop (i : nat)
   | IRegisterTF (c : string) (ver : nat)       (* register_term_frequency_lookup, overwrite=False *)
+  | IRegisterTFOverwrite (c : string) (ver : nat)  (* register_term_frequency_lookup, overwrite=True *)
   | IRegisterRecords (base : string)           (* register_table(records, base_<uid>, overwrite=True) *)
   | ISetParams (p : nat)
   | IInvalidate
   | IInvalidateKeepResults                     (* MODEL VARIANT of a defective tree, see InvalidateKeepingResults *)
   | IDeleteTables
   | IChangeInput (ver : nat)                   (* the caller replaces the rows of every input table *)
+  | ISetLeaf (n : string) (ver : nat)          (* the caller creates / replaces the rows of one of its own tables *)
   | ISecondLinker (inputs : list lname) (tfcols : list string) (p : nat)
   | ISetDebug (b : bool).
 
@@ -469,6 +494,14 @@ Section Hash.
           let s1 := set_db s (aset (st_db s) (PL l) {| e_prov := PLookup c ver; e_origin := Caller |}) in
           let s2 := set_cache s1 (aset (st_cache s1) (named (tfname c)) h) in
           ((if fx77 (st_fix s) then evict_cwtf s2 else s2), regs, tr)
+    | IRegisterTFOverwrite c ver =>
+        let l := LUid (tfname c) (st_luid s) in
+        let existed := amem (st_db s) (PL l) in
+        let h := {| h_templ := tfname c; h_phys := PL l; h_src := Leaf l; h_cbs := false |} in
+        let s1 := set_db s (aset (st_db s) (PL l) {| e_prov := PLookup c ver; e_origin := Caller |}) in
+        let s2 := set_cache s1 (aset (st_cache s1) (named (tfname c)) h) in
+        let s3 := if fx77 (st_fix s) then evict_cwtf s2 else s2 in
+        ((if existed && fx718 (st_fix s) then delete_tables s3 else s3), regs, tr)
     | IRegisterRecords base =>
         let u := st_ctr s in
         let l := LUid base u in
@@ -484,6 +517,8 @@ Section Hash.
     | IChangeInput ver =>
         (set_db s (fold_left (fun d l => aset d (PL l) {| e_prov := PInput (lbase l) ver; e_origin := User |})
                              (st_inputs s) (st_db s)), regs, tr)
+    | ISetLeaf n ver =>
+        (set_db s (aset (st_db s) (PL (LPlain n)) {| e_prov := PInput n ver; e_origin := User |}), regs, tr)
     | ISecondLinker inputs tfcols p =>
         let s1 := set_params (set_inputs s inputs) p in
         ({| st_db := st_db s1; st_cache := st_cache s1; st_inputs := st_inputs s1; st_tfcols := tfcols;
@@ -504,7 +539,9 @@ Section Hash.
   | EstimatePrior (rule newparams : nat)
   | ComputeTF (c : string)
   | RegisterTF (c : string) (ver : nat)
+  | RegisterTFOverwrite (c : string) (ver : nat)  (* overwrite=True: replaces the lookup's rows under the same name *)
   | FindMatches
+  | FindMatchesTable (n : string) (ver : nat)     (* the caller (re)fills its table n, then find_matches_to_new_records(n) *)
   | CompareTwo (flag : bool)
   | Cluster (thr : nat)                           (* predict() then cluster_pairwise_predictions_at_threshold *)
   | AccuracyColumn                                (* evaluation.accuracy_analysis_from_labels_column (table output) *)
@@ -633,19 +670,28 @@ Section Hash.
           ISetParams p' ]
     | ComputeTF c => [ INamedOrExec (tfname c) 0 [RConcat] [] ]
     | RegisterTF c ver => [ IRegisterTF c ver ]
+    | RegisterTFOverwrite c ver => [ IRegisterTFOverwrite c ver ]
     | FindMatches =>
         [ IRegisterRecords NEWREC;
           cwtf_instr s;
           IExec BLOCKED 9 [RReg 1; RReg 0] ["__splink__df_new_records_uid_fix"] true;
-          IExec FMP (st_params s) ([RReg 2; RReg 0; RReg 1] ++ map RTfIfNamed (st_tfcols s))
+          IExec FMP (st_params s) ([RReg 2; RReg 0; RReg 1] ++ map RTfRoute (st_tfcols s))
                 ["__splink__df_new_records_with_tf_before_uid_fix"; "__splink__df_new_records_with_tf";
                  "blocked_with_cols"; CVV; MWP; PREDICT] false;
           IDrop 2 ]
+    | FindMatchesTable n ver =>
+        [ ISetLeaf n ver;
+          cwtf_instr s;
+          IExec BLOCKED 9 [RReg 0; RLeafPlain n] ["__splink__df_new_records_uid_fix"] true;
+          IExec FMP (st_params s) ([RReg 1; RLeafPlain n; RReg 0] ++ map RTfRoute (st_tfcols s))
+                ["__splink__df_new_records_with_tf_before_uid_fix"; "__splink__df_new_records_with_tf";
+                 "blocked_with_cols"; CVV; MWP; PREDICT] false;
+          IDrop 1 ]
     | CompareTwo flag =>
         [ IRegisterRecords C2L;
           IRegisterRecords C2R;
           IExec (if flag then FBBR else PREDICT) (st_params s)
-                ([RReg 0; RReg 1; RCwtfIfNamed] ++ map RTfIfNamed (st_tfcols s))
+                ([RReg 0; RReg 1; RCwtfHitOnly] ++ map RTfRoute (st_tfcols s))
                 (["__splink__compare_two_records_left_with_tf"; "__splink__compare_two_records_right_with_tf";
                   "__splink__compare_two_records_left_with_tf_uid_fix";
                   "__splink__compare_two_records_right_with_tf_uid_fix";
@@ -708,7 +754,7 @@ Section Hash.
 
   (* ---------------------------------------------------------------- guards (finding classes) *)
   Definition is_bare_input_change (o : op) : bool :=
-    match o with ChangeInput _ => true | _ => false end.
+    match o with ChangeInput _ | RegisterTFOverwrite _ _ | FindMatchesTable _ _ => true | _ => false end.
   Definition is_second_linker (o : op) : bool :=
     match o with SecondLinker _ _ _ => true | _ => false end.
   Definition is_debug_switch (o : op) : bool :=
